@@ -35,7 +35,9 @@ def run(tier, seed, replay):
     shard = 700
     total_err = 0
     for s0 in range(0, ncase, shard):
-        cases = [B.gen_case(rng, k) for k in range(min(shard, ncase - s0))]
+        cases = (B.pinned_cases() if s0 == 0 else []) + [B.gen_case(rng, k) for k in range(min(shard, ncase - s0))]
+        for idx, c in enumerate(cases):
+            c.k = idx
         rc, errs, out = B.check("c04_rt", cases)
         for c in cases:
             chk.count(("rustc", c.decl), True)
